@@ -18,7 +18,7 @@ from vlib.oracles import rng_for
 
 PROPERTY = "C12"
 PROP_NO = 12
-RULE = ("cases = (map class from ALL_CLASSES x random parameter draw x random distinct raw indices) + FeatureLists "
+RULE = ("cases = (map class from ALL_CLASSES x random parameter draw x random raw indices, distinct or (every 4th draw) with repeated indices among the positive arguments) + FeatureLists "
         "with overlapping indices + normaliser lists (4 classes x 4 semilocal modes); a case is non-trivial when the "
         "analytic derivative is non-zero on >= 90% of the sampled points and the FD self-error is below tol/10; "
         "distinct = distinct (class, parameter digest, index assignment)")
@@ -39,12 +39,20 @@ def _classes():
     return td.ALL_CLASSES
 
 
-def _make(cls, rng, nraw):
-    """Random instance of a map class: distinct raw indices, non-special parameters."""
+def _make(cls, rng, nraw, repeat=False):
+    """Random instance of a map class: distinct raw indices (repeat=True: the positive-valued arguments share raw indices,
+    e.g. YMap(l, i, j, j) - legal, the package's own tests build TMap(0, 0)), non-special parameters."""
     sig = inspect.signature(cls.__init__)
     names = [p for p in sig.parameters if p != "self"]
     idx_names = [n for n in names if n in INDEX_NAMES]
     idx = rng.choice(nraw, size=len(idx_names), replace=False)
+    code = getattr(cls, "code", None) or cls.__name__
+    pos = [q for q, n in enumerate(idx_names) if n not in SIGNED.get(code, [])]
+    if repeat and len(pos) >= 2 and code != "V2":
+        a = int(rng.integers(len(pos)))
+        for q in pos:  # all equal, or one pair equal
+            if rng.random() < 0.6 or q == pos[(a + 1) % len(pos)]:
+                idx[q] = idx[pos[a]]
     kw = {}
     for n, v in zip(idx_names, idx):
         kw[n] = int(v)
@@ -128,10 +136,12 @@ def _run_map(case, rec, rng):
     npts = 40
     for d in range(case["ndraw"]):
         nraw = int(rng.integers(5, 9))
-        m, kw = _make(cls, rng, nraw)
+        m, kw = _make(cls, rng, nraw, repeat=d % 4 == 3)
         x = _inputs(cls, kw, rng, nraw, npts)
         x0 = x.copy()
         dfdy = np.ones(npts)
+        if len(set(v for k, v in kw.items() if k in INDEX_NAMES)) < sum(1 for k in kw if k in INDEX_NAMES):
+            rec.tag("index_form", "repeated")
         prefill = rng.normal(size=(nraw, npts))
         dfdx = prefill.copy()
         m.fill_deriv_(dfdx, dfdy, x)
@@ -168,7 +178,8 @@ def _run_map(case, rec, rng):
             fds[ax] = (_fd_axis(m, x, ax, h), _fd_axis(m, x, ax, h / 2))
         # derivative scale from the analytic AND the finite-difference side: an analytic derivative that is (wrongly)
         # identically zero must not make the comparison unresolved
-        scale = max([1e-300, float(np.max(np.abs(ana)))] + [float(np.max(np.abs(f2))) for _, f2 in fds.values()])
+        # (1e-6 absolute floor: a map that is identically zero, e.g. V3Map(i, i), leaves only the rounding of += / -=)
+        scale = max([1e-6, float(np.max(np.abs(ana)))] + [float(np.max(np.abs(f2))) for _, f2 in fds.values()])
         for ax, (fd1, fd2) in fds.items():
             err = np.max(np.abs(fd2 - ana[ax])) / scale
             selferr = np.max(np.abs(fd2 - fd1)) / scale
